@@ -15,7 +15,7 @@ def werrStr : Option WErr → String
   | some .ctlOverflow => "ctloverflow"
 
 def parseExt (s : String) : Option Bool :=
-  if s == "c0" then some false else if s == "c1" then some true else none
+  if s.startsWith "c0" then some false else if s.startsWith "c1" then some true else none
 
 def parseMasks (obs : String) : List Mask :=
   match obs.splitOn " masks=" with
@@ -56,7 +56,8 @@ def wrOp (w : Wr) (e : Env) (tok : String) : Option (String × Wr × Env) :=
     writer model knows only the wsflate.MessageState extension; for an all-frames extension the model's frames
     (computed without it) get the bits OR-ed into the first byte of each frame header. Driver-level, not part
     of the proved model (DESIGN §6.C06). -/
-def parseAll (x : String) : Nat := if x == "x1" then 1 else if x == "x2" then 2 else if x == "x3" then 3 else 0
+def parseAll (x : String) : Nat :=
+  if x.endsWith "x1" then 1 else if x.endsWith "x2" then 2 else if x.endsWith "x3" then 3 else 0
 
 /-- lengths of the frames (header + payload) at the front of `bs`, as far as they are complete -/
 def frameLens (fuel : Nat) (bs : Bytes) : List Nat :=
